@@ -470,8 +470,17 @@ func (x *Exec) registerLib() {
 	}, mods: noMods}
 	// reflect accessors without a functional model: no effect, unconstrained result (sound for
 	// frame reasoning; nothing can be proved about the value)
-	for _, n := range []string{"(reflect.Value).Addr", "(reflect.Value).Interface", "(reflect.Value).Elem", "(reflect.Value).Type",
-		"(github.com/cosmos72/gomacro/xreflect.Value).Addr", "(github.com/cosmos72/gomacro/xreflect.Value).Interface"} {
+	// Value.Interface(): what the reflect.Value currently holds, as a heap read keyed by the handle
+	// (so that assignments through the handle and unknown calls change it). Not linked to the
+	// typed cell model of Int/Float/...: used for function values.
+	for _, n := range []string{"(reflect.Value).Interface", "(github.com/cosmos72/gomacro/xreflect.Value).Interface"} {
+		x.lib[n] = &libFn{apply: func(f *Frame, st *State, ins ssa.Instruction, args []Value) (Value, bool) {
+			x.note("library spec: Value.Interface() reads what the handle currently holds (heap model rcell#ityp / rcell#ival)")
+			return x.rvInterface(st, rvOf(args[0])), true
+		}, mods: noMods}
+	}
+	for _, n := range []string{"(reflect.Value).Addr", "(reflect.Value).Elem", "(reflect.Value).Type",
+		"(github.com/cosmos72/gomacro/xreflect.Value).Addr"} {
 		name := n
 		if _, dup := x.lib[name]; dup {
 			continue
@@ -518,4 +527,11 @@ func (x *Exec) sortStringsSpec(st *State, s Value) {
 	frame := B.Forall([]*smt.Term{i}, B.Implies(B.Or(B.BVCmp("bvslt", i, off), B.BVCmp("bvsle", B.BVBin("bvadd", off, ln), i)), B.Eq(B.Select(nw, i), B.Select(old, i))))
 	st.PC = B.And(st.PC, sorted, permF, permB, frame)
 	x.heapSet(st, key, B.Store(h, arr, nw))
+}
+
+// rvInterface: the interface value a reflect.Value handle currently holds.
+func (x *Exec) rvInterface(st *State, rv *smt.Term) *Struct {
+	typ := x.B.Select(x.heapGet(st, "rcell#ityp", smt.Array(rvSort, RefS)), rv)
+	val := x.B.Select(x.heapGet(st, "rcell#ival", smt.Array(rvSort, RefS)), rv)
+	return &Struct{[]Value{typ, val}}
 }
